@@ -29,7 +29,44 @@ func isInitFunc(fn *ssa.Function) bool {
 			return true
 		}
 	}
-	return false
+	return runOnceByPackageLevelOnce(fn)
+}
+
+// runOnceByPackageLevelOnce: fn is a closure without captured variables whose only use is as the argument of Do on a PACKAGE-LEVEL
+// sync.Once: it runs at most once per process, before any reader that goes through the same Do returns, and what it computes does
+// not depend on the caller — a lazily run initialiser. (A Once declared as a local variable guards nothing: not accepted.)
+func runOnceByPackageLevelOnce(fn *ssa.Function) bool {
+	par := fn.Parent()
+	if par == nil || len(fn.FreeVars) != 0 {
+		return false
+	}
+	n := 0
+	for _, b := range par.Blocks {
+		for _, in := range b.Instrs {
+			c, ok := in.(ssa.CallInstruction)
+			if !ok {
+				continue
+			}
+			cc := c.Common()
+			for _, a := range cc.Args {
+				v := a
+				if mc, isMC := v.(*ssa.MakeClosure); isMC {
+					v = mc.Fn
+				}
+				if v != ssa.Value(fn) {
+					continue
+				}
+				if calleeName(cc) != "(*sync.Once).Do" || len(cc.Args) == 0 {
+					return false
+				}
+				if _, isGlobal := cc.Args[0].(*ssa.Global); !isGlobal {
+					return false
+				}
+				n++
+			}
+		}
+	}
+	return n == 1
 }
 
 // globalOf: v is a load of a package-level variable of the module (or the variable's address): returns it.
